@@ -234,12 +234,23 @@ pub fn emit<'tcx>(tcx: TyCtxt<'tcx>, root: &mut J) {
                 traits.push(o);
             }
             k => {
-                others.push(
-                    J::obj()
-                        .with("path", J::s(def_path(tcx, did)))
-                        .with("kind", J::s(format!("{:?}", k)))
-                        .with("span", J::s(span_str(tcx, tcx.def_span(did)))),
-                );
+                let mut oo = J::obj()
+                    .with("path", J::s(def_path(tcx, did)))
+                    .with("kind", J::s(format!("{:?}", k)))
+                    .with("span", J::s(span_str(tcx, tcx.def_span(did))));
+                // integer constants: their evaluated value (loop bounds / table sizes are written in terms of them)
+                if matches!(k, DefKind::Const { .. }) {
+                    let ty = tcx.type_of(did).instantiate_identity().skip_norm_wip();
+                    if ty.is_integral() && tcx.generics_of(did).is_empty() {
+                        if let Ok(v) = tcx.const_eval_poly(did) {
+                            if let Some(sc) = v.try_to_scalar_int() {
+                                oo.set("val", J::Num(sc.to_bits_unchecked() as i128));
+                                oo.set("ty", J::s(format!("{}", ty)));
+                            }
+                        }
+                    }
+                }
+                others.push(oo);
             }
         }
     }
